@@ -1,3 +1,259 @@
-From Coq Require Import ZArith List Bool.
-From KV Require Import Scalar Geom Curves Totality C14_proofs.
-Theorem C14_placeholder : True. Proof. exact c14_placeholder. Qed.
+(** C14 — Core algorithms terminate with finite results on every finite input.
+
+    What is proved here, and what is not.  A Gallina model is a total function, so for every
+    modelled machine "no panic, no stuck state, bounded work" is a theorem — provided the model's
+    explicit fuel is shown sufficient, which is what the statements below do (or they state the
+    bound under which it is).  The theorems are about the control structure:
+      - the SVG parser, over every byte string;
+      - [segments] (the only panic is the documented one);
+      - the float midpoint recursion of [fit_to_bezpath_rec], ON BINARY64, for every source;
+      - [arclen_rec], the flatten loops, [solve_itp], the dasher, [fit_inside];
+      - the fixed-capacity result vectors of the solvers and of [extrema].
+    What no theorem here reaches: that every NUMBER the stroker / offsetter / fitter produce is
+    finite for every degenerate cubic.  That lives in float divisions by tangent lengths across
+    stroke.rs / offset.rs / fit.rs, which are modelled only as skeletons; it is decided by the laws
+    of harness/src/c14.rs (testing, with deterministic work counters), see docs/C14.md.
+
+    Statements only.  [re-export] marks a theorem of another property, restated here because it is
+    a termination claim; its tie to the code is that property's correspondence check. *)
+From Coq Require Import ZArith Reals List Bool Floats Lia Lra.
+From KV Require Import Scalar RInst F64 Geom Curves Path Totality Arclen Flatten FlattenSpec Solvers Extrema ToQuads
+  Svg Dash DashSpec
+  C14_proofs C14_capacity C14_float
+  C16_parse C15_proofs C05_proofs C17_proofs C17_spline_proofs C13_proofs.
+Import ListNotations.
+
+(* ------------------------------------------------------------------------------------------ *)
+(** * fit_to_bezpath_rec: the recursion guard [t == start || t == end]  (own) *)
+
+(** On any "float line" — a scalar type whose relevant values [dom] are indexed by integers,
+    with [==] deciding equality of indices and the computed midpoint [0.5 * (s + e)] lying between
+    its arguments — the recursion ends whatever the source answers ([nofit] arbitrary): fuel
+    (= depth) [d + 1] suffices, [d] the number of values from [s] to [e]; it makes at most
+    [2 max(d,1) - 1] calls and emits at most [max(d,1)] segments. *)
+Theorem C14_fit_rec_terminates_abstract :
+  forall (T : Type) (S : Scalar T) (dom : T -> Prop) (idx : T -> Z),
+  (forall a b, dom a -> dom b -> (feqb a b = true <-> idx a = idx b)) ->
+  (forall s e, dom s -> dom e -> (idx s <= idx e)%Z -> dom (fit_mid s e)) ->
+  (forall s e, dom s -> dom e -> (idx s <= idx e)%Z -> (idx s <= idx (fit_mid s e) <= idx e)%Z) ->
+  forall (nofit : T -> T -> bool) fuel s e, dom s -> dom e -> (idx s <= idx e)%Z ->
+  (Z.to_nat (idx e - idx s) < fuel)%nat ->
+  exists n l, bisect fuel nofit s e = Some (n, l) /\
+    (1 <= n <= 2 * Z.max (idx e - idx s) 1 - 1)%Z /\
+    (1 <= length l)%nat /\ (Z.of_nat (length l) <= Z.max (idx e - idx s) 1)%Z.
+Proof. intros T S. exact (@bisect_total T S). Qed.
+
+(** ... and its depth is at most [max(d,1)] *)
+Theorem C14_fit_rec_depth_abstract :
+  forall (T : Type) (S : Scalar T) (dom : T -> Prop) (idx : T -> Z),
+  (forall a b, dom a -> dom b -> (feqb a b = true <-> idx a = idx b)) ->
+  (forall s e, dom s -> dom e -> (idx s <= idx e)%Z -> dom (fit_mid s e)) ->
+  (forall s e, dom s -> dom e -> (idx s <= idx e)%Z -> (idx s <= idx (fit_mid s e) <= idx e)%Z) ->
+  forall (nofit : T -> T -> bool) fuel s e, dom s -> dom e -> (idx s <= idx e)%Z ->
+  (Z.to_nat (idx e - idx s) < fuel)%nat ->
+  exists d, bisect_depth fuel nofit s e = Some d /\ (1 <= d)%nat /\ (Z.of_nat d <= Z.max (idx e - idx s) 1)%Z.
+Proof. intros T S. exact (@bisect_depth_total T S). Qed.
+
+(** Binary64 IS such a line on [0, 1]: every finite binary64 number is [idx x * 2^-1074] ... *)
+Theorem C14_f64_index : forall x : PrimFloat.float, IZR (idx x) = (fval x * Raux.bpow Zaux.radix2 1074)%R.
+Proof. exact idx_exact. Qed.
+
+(** ... and for finite 0 <= s <= e <= 1 the midpoint as the code computes it (round (s + e), then
+    round (0.5 * that)) is a finite number of [0, 1] between s and e.  Flocq, IEEE-754 binary64. *)
+Theorem C14_f64_midpoint_between : forall s e : PrimFloat.float,
+  unitf s -> unitf e -> (fval s <= fval e)%R ->
+  unitf (fit_mid s e) /\ (fval s <= fval (fit_mid s e) <= fval e)%R.
+Proof. exact mid_spec. Qed.
+
+(** fit_rec_depth: on binary64 the recursion of fit_to_bezpath_rec over a sub-range of [0, 1] ends
+    for EVERY source — also one that can never be fitted (NaN samples): there is a fuel for which
+    the model answers, every larger fuel gives the same answer, and the number of calls is at most
+    twice the number of binary64 values in the range.  (That number is astronomical for 0..1, about
+    2^62: termination, not a practical bound; the depth along one chain is at most 1075, see the
+    Example, and the harness's laws put a work budget on the real function.) *)
+Theorem C14_fit_rec_depth : forall (nofit : PrimFloat.float -> PrimFloat.float -> bool) (s e : PrimFloat.float),
+  unitf s -> unitf e -> (fval s <= fval e)%R ->
+  exists fuel n l, bisect fuel nofit s e = Some (n, l) /\
+    (1 <= n <= 2 * Z.max (idx e - idx s) 1 - 1)%Z /\ (1 <= length l)%nat /\
+    forall j, bisect (fuel + j) nofit s e = Some (n, l).
+Proof. exact bisect_f64_total. Qed.
+
+Theorem C14_fit_rec_terminates_0_1 : forall nofit : PrimFloat.float -> PrimFloat.float -> bool,
+  exists fuel n l, forall j, bisect (fuel + j) nofit 0%float 1%float = Some (n, l).
+Proof. exact fit_recursion_terminates_f64. Qed.
+
+(** the hypotheses are met: 0 and 1 are in the domain; and the depths of three chains, computed on
+    the binary64 instance: towards the smallest subnormal 1075 levels, towards 1 - 2^-53 54 levels *)
+Example C14_fit_rec_domain : unitf 0%float /\ unitf 1%float.
+Proof. split; [exact unitf_0|exact unitf_1]. Qed.
+Example C14_fit_rec_chain_depths :
+  bisect_depth 1200 (marked [0x0.0000000000001p-1022%float]) 0%float 1%float = Some 1075%nat /\
+  bisect_depth 1200 (marked [0x1.fffffffffffffp-1%float]) 0%float 1%float = Some 54%nat /\
+  bisect_depth 1200 (marked [0x1.5555555555555p-2%float]) 0%float 1%float = Some 55%nat.
+Proof. exact chain_depths. Qed.
+
+(** Over the reals the guard never fires on a proper range (C18_fit_midpoint_collapse_real): there
+    the recursion is bounded by the model's fuel only — the float statement above is the
+    termination argument, not the real one. *)
+
+(* ------------------------------------------------------------------------------------------ *)
+(** * SVG parser  [re-export of C16_svg_consumes / C16_svg_total] *)
+
+(** every iteration of [from_svg]'s loop that continues consumes at least one byte (and keeps the
+    loop invariant), for every scalar, number parser and remainder function ... *)
+Theorem C14_svg_consumes :
+  forall (T : Type) (S : Scalar T) (num_of : list Z -> option T) (frem : T -> T -> T) (cfg : Cfg)
+         st s st' em r,
+  lcinv st -> Svg.step num_of frem cfg st s = SNext st' em r -> (List.length r < List.length s)%nat /\ lcinv st'.
+Proof. exact @step_consumes. Qed.
+(** ... so on EVERY byte string the parser returns Ok or one of its four errors after at most
+    length + 1 iterations: the model's fuel is never exhausted *)
+Theorem C14_svg_parse_total :
+  forall (T : Type) (S : Scalar T) (num_of : list Z -> option T) (frem : T -> T -> T) (cfg : Cfg) s,
+  from_svg num_of frem cfg s <> Err OutOfFuel.
+Proof. exact @from_svg_total. Qed.
+
+(* ------------------------------------------------------------------------------------------ *)
+(** * segments  (own; model/Path.v is C07's) *)
+
+(** [segments] / [BezPath::segments] panics exactly on a leading ClosePath ("Can't start a segment
+    on a ClosePath"), for every element list and every scalar *)
+Theorem C14_segments_no_panic_iff : forall (T : Type) (S : Scalar T) (els : list (PathEl T)),
+  segments els = None <-> exists r, els = ClosePath :: r.
+Proof. intros T S. exact (@segments_panic_iff T S). Qed.
+Example C14_segments_instances :
+  segments [MoveTo (mkPoint 0 0); ClosePath; LineTo (mkPoint 1 1)]%float <> None /\
+  segments [ClosePath; MoveTo (mkPoint 0 0)]%float = None /\
+  segments [LineTo (mkPoint 1 1)]%float <> None.
+Proof. repeat split; vm_compute; discriminate. Qed.
+
+(* ------------------------------------------------------------------------------------------ *)
+(** * arclen_rec  (own; model/Arclen.v is C03's) *)
+
+(** with [rem] levels left below the depth limit 20, [arclen_rec] is called at most 2^(rem+1) - 1
+    times (at most 2^rem leaves): any scalar, any cubic, any accuracy — also NaN *)
+Theorem C14_arclen_rec_calls : forall (T : Type) (S : Scalar T) rem (c : CubicBez T) acc,
+  (1 <= snd (arclen_rec_vc rem c acc) <= 2 ^ (Z.of_nat rem + 1) - 1)%Z.
+Proof. intros T S. exact (@arclen_rec_calls_bound T S). Qed.
+Theorem C14_arclen_rec_leaves : forall (T : Type) (S : Scalar T) (c : CubicBez T) acc,
+  (1 <= snd (cubic_arclen_vc c acc) <= 2097151)%Z.
+Proof. intros T S. exact (@cubic_arclen_calls_bound T S). Qed.
+Example C14_arclen_rec_instance :
+  snd (cubic_arclen_vc (mkCubic (mkPoint 0 0) (mkPoint 1 2) (mkPoint 3 2) (mkPoint 4 0))%float 0x1p-20%float) = 1%Z.
+Proof. vm_compute. reflexivity. Qed.
+
+(* ------------------------------------------------------------------------------------------ *)
+(** * flatten  (loop counts own; totality re-export of C05_flatten_total) *)
+
+(** the QuadTo arm emits exactly n - 1 interior vertices, n = max(1, ceil(val / (2 sqrt tol)) as usize),
+    fixed before the loop starts: any scalar (what n IS when val is NaN or huge is a law) *)
+Theorem C14_flatten_quad_loop : forall (T : Type) (S : Scalar T) (q : QuadBez T) (sqrt_tol : T),
+  length (flatten_quad_pts q sqrt_tol) =
+  Z.to_nat (subdiv_count (fp_val (estimate_subdiv q sqrt_tol)) sqrt_tol - 1).
+Proof. intros T S. exact (@flatten_quad_count T S). Qed.
+(** the CurveTo arm: the first loop runs once per [to_quads] piece, and whenever the second loop
+    returns it has emitted at most n vertices, n the count computed from the summed estimates *)
+Theorem C14_flatten_cubic_loops : forall (T : Type) (S : Scalar T) (c : CubicBez T) (tol sqrt_tol : T) uss,
+  length (cubic_quad_buf c tol sqrt_tol) = Z.to_nat (fl_to_quads_n c (fmul tol to_quad_tol)) /\
+  (cubic_stage2_us (cubic_quad_buf c tol sqrt_tol) (sqrt_remain sqrt_tol) = Some uss ->
+   (Z.of_nat (length (concat uss)) <= subdiv_count (fp_sum (cubic_quad_buf c tol sqrt_tol)) (sqrt_remain sqrt_tol))%Z).
+Proof. intros T S c tol st uss. split; [apply (@cubic_quad_buf_count T S)|apply (@cubic_stage2_count T S)]. Qed.
+(** [re-export] in exact arithmetic the second loop always returns (no "runaway"): flatten is total *)
+Theorem C14_flatten_total : forall keep (tol : R) (els : list (PathEl R)),
+  exists out, flatten_gen keep tol els = Some out /\ forallb is_flat_el out = true.
+Proof. exact flatten_kinds_R. Qed.
+
+(* ------------------------------------------------------------------------------------------ *)
+(** * solve_itp  [re-export of C15_solve_itp_spec] *)
+
+(** exact arithmetic, guards as in C15: the loop ends within nmax = n0 + n1_2 iterations *)
+Theorem C14_itp_terminates : forall (fuel : nat) (f : R -> R) (a b eps k1 ya yb : R) (n0 : Z),
+  (0 < eps)%R -> (a < b)%R -> (0 <= k1)%R -> (0 <= n0)%Z ->
+  (ya < 0)%R -> (0 < yb)%R -> (f a < 0)%R -> (0 < f b)%R ->
+  let nmax := (n0 + itp_n1_2 a b eps)%Z in
+  (nmax < 64)%Z -> (Z.to_nat nmax <= fuel)%nat ->
+  exists x, solve_itp fuel f a b eps n0 k1 ya yb = Some x /\ itp_post f eps a b x.
+Proof. exact solve_itp_spec. Qed.
+(** On binary64 the loop [while b - a > 2.0 * epsilon] does NOT always end: once a and b are
+    adjacent numbers and 2 epsilon is below their distance nothing changes any more (finding
+    C14-itp-stalled-bracket, reached from stroke() through inv_arclen).  The repaired loop stops
+    when the midpoint is no longer strictly inside; by [C14_f64_midpoint_between] and
+    [C14_fit_rec_terminates_abstract] that guard fires before the bracket stops shrinking. *)
+
+(* ------------------------------------------------------------------------------------------ *)
+(** * dasher  [re-export of C13's thm_terminates] *)
+
+(** exact arithmetic, the dasher with C13's repairs, a pattern of lengths >= dm > 0: the iterator
+    ends, and the number of iterations of [next]'s loop is at most 2 per emitted element + 5 per
+    input element + 2 *)
+Theorem C14_dash_next_terminates :
+  forall ds dm (al : PathSeg R -> R) (ial : PathSeg R -> R -> R) o els fuel,
+  pattern_ok ds dm -> (forall s, 0 <= al s)%R ->
+  (0 <= o)%R -> (init_fuel dm o <= fuel)%nat -> fuel_ok al dm fuel els ->
+  exists out n, dash_spec al ial ds fuel o els = Some out /\
+    (n <= 2 * length out + 5 * length els + 2)%nat /\
+    forall f, (fuel <= f)%nat -> (n <= f)%nat -> dash_gen al ial fixes_all ds f o els = DashOk out n.
+Proof. exact thm_terminates. Qed.
+
+(* ------------------------------------------------------------------------------------------ *)
+(** * fixed-capacity result vectors  (own; any scalar, so also the binary64 run) *)
+
+(** ArrayVec<f64, 2>, <f64, 3>, <f64, 4>, ArrayVec<f64, MAX_EXTREMA = 4>: a push never overflows *)
+Theorem C14_arrayvec_capacity : forall (T : Type) (S : Scalar T),
+  (forall a0 a1 a2 : T, (length (solve_quadratic a0 a1 a2) <= 2)%nat) /\
+  (forall a0 a1 a2 a3 : T, (length (solve_cubic a0 a1 a2 a3) <= 3)%nat) /\
+  (forall a0 a1 a2 a3 a4 : T, (length (solve_quartic a0 a1 a2 a3 a4) <= 4)%nat) /\
+  (forall s : PathSeg T, (length (seg_extrema s) <= 4)%nat).
+Proof.
+  intros T S. repeat split; intros.
+  - apply (@C14_capacity.solve_quadratic_len T S).
+  - apply (@C14_capacity.solve_cubic_len T S).
+  - apply (@C14_capacity.solve_quartic_len T S).
+  - apply (@C14_capacity.seg_extrema_len T S).
+Qed.
+Example C14_arrayvec_capacity_reached :
+  length (solve_quartic (T:=float) 24 (-50) 35 (-10) 1)%float = 4%nat /\
+  length (solve_cubic (T:=float) (-6) 11 (-6) 1)%float = 3%nat /\
+  length (solve_quadratic (T:=float) 2 (-3) 1)%float = 2%nat.
+Proof. vm_compute. repeat split. Qed.
+
+(* ------------------------------------------------------------------------------------------ *)
+(** * to_quads, fit_inside  [re-exports of C17] *)
+
+(** the iterator yields exactly [to_quads_count] items, a number fixed up front (any scalar) ... *)
+Theorem C14_to_quads_count_finite : forall (T : Type) (S : Scalar T) (c : CubicBez T) (a : T),
+  length (to_quads c a) = Z.to_nat (to_quads_count c a) /\ (1 <= to_quads_count c a)%Z.
+Proof.
+  intros T S c a. split.
+  - unfold to_quads, to_quads_n. rewrite map_length, seq_length. reflexivity.
+  - unfold to_quads_count. lia.
+Qed.
+(** ... which in exact arithmetic is the least n with err <= n^6 * 432 a^2 up to the ceiling *)
+Theorem C14_to_quads_count_enough : forall (c : CubicBez R) (a : R), (0 < a)%R ->
+  (to_quads_err c <= IZR (to_quads_count c a) ^ 6 * (432 * a * a))%R.
+Proof. exact to_quads_count_enough. Qed.
+(** [fit_inside]'s recursion is not bounded by anything in the source; once it answers, more
+    depth gives the same answer (any scalar) *)
+Theorem C14_fit_inside_fuel_irrelevant : forall (T : Type) (S : Scalar T) k j (c : CubicBez T) d b,
+  fit_inside k c d = Some b -> fit_inside (k + j) c d = Some b.
+Proof. intros T S. exact (@fit_inside_fuel_mono T S). Qed.
+
+(* ------------------------------------------------------------------------------------------ *)
+(** * regularize: the protection against zero tangents  (own) *)
+
+(** exact arithmetic, dimension > 0, no cusp reported: either the straight-line fallback, or the end
+    points are kept and the FIRST control arm is at least [dimension] long *)
+Theorem C14_regularize_first_arm : forall (c : CubicBez R) (dim : R), (0 < dim)%R ->
+  regularize c dim 0 = reg_line c \/
+  (c0 (regularize c dim 0) = c0 c /\ c3 (regularize c dim 0) = c3 c /\
+   (dim * dim <= dist2 (c0 (regularize c dim 0)) (c1 (regularize c dim 0)))%R).
+Proof. exact regularize_first_arm. Qed.
+(** the symmetric claim for the LAST arm is false: the source measures |p1 p2| where |p1 p3| is
+    meant ([d13]), so p2 can stay much closer to p3 than [dimension] *)
+Theorem C14_regularize_last_arm_refuted :
+  exists (c : CubicBez R) (dim : R), (0 < dim)%R /\ regularize c dim 0 <> reg_line c /\
+    (dist2 (c3 (regularize c dim 0)) (c2 (regularize c dim 0)) < dim * dim)%R.
+Proof.
+  exists short_arm_witness, 1%R. destruct regularize_last_arm_short as [H1 H2].
+  split; [lra|]. split; [exact H1|]. rewrite H2. lra.
+Qed.
